@@ -178,6 +178,36 @@ def _confirm_child(prop_id, tier, case, scratch):
         return {"harness_error": "confirm child produced no result"}
 
 
+def _shrink_child(prop_id, tier, case, sig, budget, scratch):
+    """run prop.shrink in a forked child; returns the shrunk case or None"""
+    r, w = os.pipe()
+    pid = os.fork()
+    if pid == 0:
+        try:
+            os.close(r)
+            _winit(prop_id, tier, scratch)
+            out = _PROP.shrink(case, sig, tier, budget)
+            with os.fdopen(w, "wb") as f:
+                f.write(json.dumps(out, default=str).encode())
+        except BaseException:
+            pass
+        finally:
+            os._exit(0)
+    os.close(w)
+    chunks = []
+    with os.fdopen(r, "rb") as f:
+        while True:
+            b = f.read(1 << 16)
+            if not b:
+                break
+            chunks.append(b)
+    os.waitpid(pid, 0)
+    try:
+        return json.loads(b"".join(chunks).decode())
+    except Exception:
+        return None
+
+
 # ----------------------------------------------------------------------------------------------
 # known findings
 # ----------------------------------------------------------------------------------------------
@@ -341,12 +371,25 @@ def _finish(prop_id, prop, tier, seed, t0, results, known, fixed, replay_notes, 
         violations.append((s, os.path.join(VERIF, w)))
 
     state_leak = []
+    # confirm in isolation (fresh fork of a pristine launcher process), smallest candidates first; launchers never run cases themselves
+    cand_map = {s: sorted(buckets[s], key=lambda f: len(json.dumps(f.get("case"), default=str)))[:3] for s in new_sigs}
+    conf_res = {}
+    if new_sigs:
+        with concurrent.futures.ProcessPoolExecutor(max_workers=min(16, max(1, len(new_sigs))), mp_context=multiprocessing.get_context("fork")) as cex:
+            futs = {}
+            for s in new_sigs:
+                for k, f in enumerate(cand_map[s][: (1 if args.triage else 3)]):
+                    futs[cex.submit(_confirm_child, prop_id, tier, f["case"], scratch)] = (s, k)
+            for fu in concurrent.futures.as_completed(futs):
+                conf_res[futs[fu]] = fu.result()
+    confirmed_map = {}
     for s in new_sigs:
-        # confirm in isolation: a fresh fork of the pristine parent, smallest candidate first
-        cands = sorted(buckets[s], key=lambda f: len(json.dumps(f.get("case"), default=str)))[:3]
+        cands = cand_map[s]
         confirmed = None
-        for f in cands:
-            res = _confirm_child(prop_id, tier, f["case"], scratch)
+        for k, f in enumerate(cands):
+            res = conf_res.get((s, k))
+            if res is None:
+                continue
             if "harness_error" in res:
                 print(res["harness_error"])
                 raise HarnessError("confirmation run raised inside the harness")
@@ -356,16 +399,28 @@ def _finish(prop_id, prop, tier, seed, t0, results, known, fixed, replay_notes, 
         if confirmed is None:
             state_leak.append(s)
             continue
+        confirmed_map[s] = confirmed
+    # shrink in parallel (each in a forked child of a pristine launcher), then re-confirm the shrunk case in a fresh child
+    shrunk = {}
+    if confirmed_map and not args.no_shrink and hasattr(prop, "shrink"):
+        budget = 20 if args.triage else (60 if tier == "quick" else 600)
+        with concurrent.futures.ProcessPoolExecutor(max_workers=min(16, len(confirmed_map)), mp_context=multiprocessing.get_context("fork")) as cex:
+            futs = {cex.submit(_shrink_child, prop_id, tier, c["case"], c["sig"], budget, scratch): s for s, c in confirmed_map.items()}
+            for fu in concurrent.futures.as_completed(futs):
+                try:
+                    shrunk[futs[fu]] = fu.result()
+                except Exception:
+                    pass
+            futs = {cex.submit(_confirm_child, prop_id, tier, c, scratch): s for s, c in shrunk.items() if c is not None}
+            for fu in concurrent.futures.as_completed(futs):
+                s = futs[fu]
+                res = fu.result()
+                ok = [g for g in res.get("failures", []) if sig_str(g["sig"]) == s]
+                if ok:
+                    confirmed_map[s] = ok[0]
+    for s, confirmed in confirmed_map.items():
         case = confirmed["case"]
-        if not args.no_shrink and hasattr(prop, "shrink"):
-            try:
-                budget = 20 if args.triage else (60 if tier == "quick" else 600)
-                case = prop.shrink(case, confirmed["sig"], tier, budget)
-            except Exception:
-                traceback.print_exc()
         if args.triage:
-            confirmed = dict(confirmed)
-            confirmed["case"] = case
             violations.append((s, None, confirmed))
             continue
         rp = os.path.join(VERIF, "replays", prop_id, "%s.json" % hashlib.sha1(s.encode()).hexdigest()[:12])
@@ -414,6 +469,9 @@ def _finish(prop_id, prop, tier, seed, t0, results, known, fixed, replay_notes, 
     }
     if hasattr(prop, "extra_evidence"):
         ev["coverage"].update(prop.extra_evidence(results, tier))
+    if args.triage:
+        print("%s triage: evaluations=%d distinct_nontrivial=%d new signatures=%d wall=%.1fs" % (prop_id, evaluations, len(nontrivial), len(violations), wall))
+        return 0
     if evaluations < 1 or len(nontrivial) < 2:
         _write_evidence(prop_id, ev)
         raise HarnessError("vacuous run: evaluations=%d distinct_nontrivial=%d" % (evaluations, len(nontrivial)))
